@@ -131,7 +131,7 @@ def judge_cycle(name, n, rc, out, err, metrics=None):
 
 def run_cycle(hx, name, rng, n):
     src, par = c20gen.cycle_script(name, rng, n)
-    rc, out, err = run_script(hx, src, "cyc-" + name, args=("--idle",), watchdog=400, timeout=3000)
+    rc, out, err = run_script(hx, src, "cyc-" + name, args=("--idle",), watchdog=400, timeout=14400)
     spec = c20gen.CYCLES[name]
     v = judge_cycle(name, n, rc, out, err, metrics=spec[2] if len(spec) > 2 else None)
     v["src"] = src
@@ -226,7 +226,7 @@ def judge_mix(expect, chosen, rc, out, err):
 
 def run_mix(hx, rng, ntasks, idx, kinds=None):
     src, expect, chosen = c20gen.mix_script(rng, ntasks, kinds)
-    rc, out, err = run_script(hx, src, "mix-%d" % idx, args=("--snap", "--events"), timeout=1500, watchdog=600)
+    rc, out, err = run_script(hx, src, "mix-%d" % idx, args=("--snap", "--events"), timeout=7200, watchdog=600)
     probs, info = judge_mix(expect, chosen, rc, out, err)
     return {"idx": idx, "src": src, "expect": expect, "chosen": chosen, "probs": probs, "info": info, "out": out, "rc": rc, "err": err[-2000:]}
 
